@@ -576,3 +576,32 @@ func neverRejects(known map[string]*fileMeta, alias, path string) bool {
 	}
 	return true
 }
+
+// LINT-IDXCROSS: the index of the inner loop on the outer list.
+type polIn struct{ quals []string }
+type polOut struct{ quals []string }
+
+func crossIndexed(in []polIn) []polOut {
+	out := make([]polOut, len(in))
+	for i, p := range in {
+		out[i].quals = make([]string, len(p.quals))
+		for j, q := range p.quals {
+			out[j].quals[i] = q
+		}
+	}
+	return out
+}
+
+// LINT-GUARDFIELD: the presence of one field decides about the use of its neighbour.
+type authIn struct {
+	Oid string `json:"oid"`
+	Url string `json:"url"`
+}
+
+func testsOneUsesOther(a authIn) string {
+	oid := ""
+	if len(a.Url) > 0 {
+		oid = strings.TrimSpace(a.Oid)
+	}
+	return oid
+}
